@@ -115,5 +115,9 @@ def elemsInAabb (h : HeightField2 K) (lo hi : V2 K) : List (Nat × Segment2 K) :
       let y1 := h.hs.getD (i + 1) 0
       if (rmax.y < y0 ∧ rmax.y < y1) ∨ (y0 < rmin.y ∧ y1 < rmin.y) then none else some (i, g)
 
+/-- the index range `min_x..max_x` of the PINNED `map_elements_in_local_aabb` (corners not re-ordered), for the refutation -/
+def elemsPinnedRange (h : HeightField2 K) (lo hi : V2 K) : Nat × Nat :=
+  (HeightField3.quantizeFloor (lo.x / h.sc.x) h.ucw h.numCells, quantizeCeil (hi.x / h.sc.x) h.ucw h.numCells)
+
 end Hf2S
 end Model
